@@ -9,9 +9,11 @@ import BfeVerif.C06.Model
         code = a | r | u0/u1 (return value) | R | P (close of closed channel) | pc of checker i after the step | none
   op `g <tok> <tok> …`   real `check` goroutine, compared at quiescent points (checker parked before its connect, or gone):
         F<th>  OnFail with FailNum=th | S  OnSuccess | H<ok>:<th>  let the checker run one iteration | R  Release
-     result: per token `<avail>:<failNum>:<succNum>:<restarted>:<closed>:<live checker goroutines>:<connects accepted so far>`
+     result: per token `<avail>:<failNum>:<succNum>:<restarted>:<closed>:<live checker goroutines>:<connects accepted so far>`, then `end:<n>`
   op `x <threads>:<per>:<th>`   storm: threads×per concurrent OnFail, then one successful check under SuccNum=1
      result: two g-style observations
+  every g / x result ends with `end:<n>`: check goroutines still alive after the harness released the backend and let a
+  parked checker finish its iteration (the property demands 0); `HANG…` = a bounded wait of the harness expired
 -/
 namespace BfeVerif.C06
 open BfeVerif.Proto
@@ -52,6 +54,15 @@ def evCode (s' : St) (l : Lab) (e : Ev) : String :=
 
 /-! ### spec oracle: works on a list of observed steps (events + what the implementation reported) -/
 
+/-- a checker was started after the (most recent) release -/
+def spawnedAfterRelease : List Ev → Bool
+  | [] => false
+  | .released :: _ => false
+  | .upd _ true :: _ => true
+  | _ :: r => spawnedAfterRelease r
+
+def implHang (impl : String) : Bool := (impl.splitOn "HANG").length > 1
+
 structure Obs where
   evs : List Ev          -- events of this step, oldest first
   avail : Bool           -- reported after the step
@@ -85,6 +96,8 @@ def judgeStep (hist : List Ev) (availB : Bool) (o : Obs) : Option String × List
   let bad := bad.orElse fun _ =>
     if availB && !o.avail && !downSeen then some "down-unexplained"
     else if !availB && o.avail && !upSeen then some "up-unexplained"
+    else if o.exactUp && o.closed && o.live ≥ 1 && hist'.contains .released &&
+        (decide (connSince hist' ≥ 1) || spawnedAfterRelease hist') then some "checker-still-running-after-release"
     else if o.live > 1 then some "two-checkers"
     else if !o.avail && !o.closed && o.live != 1 then some "no-checker"
     else if o.avail && o.live == 1 then some "stray-checker"
@@ -211,6 +224,15 @@ def gStep (s : St) (evs : List Ev) : GTok → St × List Ev
     | none => (s, evs)
     | some i => iterate s evs i ok th
 
+/-- end of every g/x case: the harness releases the backend (if the script did not), lets a parked checker run the one
+    iteration it is committed to, and counts the check goroutines still alive -/
+def endStr (s : St) (evs : List Ev) : String :=
+  let (s1, e1) := if s.closed then (s, evs) else let (s', e) := step s .release; (s', e :: evs)
+  let (s2, _) := match parkedIdx s1 with
+    | some i => iterate s1 e1 i false 1073741824
+    | none => (s1, e1)
+  "end:" ++ toString (liveCount s2)
+
 def connCount (evs : List Ev) : Nat :=
   (evs.filter fun e => match e with | .connect _ true _ => true | _ => false).length
 
@@ -219,7 +241,7 @@ def gStr (s : St) (evs : List Ev) : String :=
 
 def runG (toks : List GTok) : String × St × List Ev :=
   let rec go (s : St) (evs : List Ev) (acc : List String) : List GTok → String × St × List Ev
-    | [] => (" ".intercalate acc.reverse, s, evs)
+    | [] => (" ".intercalate (endStr s evs :: acc).reverse, s, evs)
     | t :: ts =>
       let (s', evs') := gStep s evs t
       go s' evs' (gStr s' evs' :: acc) ts
@@ -279,11 +301,18 @@ def run (op impl : String) : Ans :=
     | none => { model := "bad-op", verdict := "skip" }
     | some gts =>
       let (m, s, evs) := runG gts
+      let itoks := (impl.splitOn " ").filter (· != "")
+      let endTok := itoks.getLast?.getD ""
       let verdict :=
-        match obsG gts ((impl.splitOn " ").filter (· != "")) with
-        | some obs =>
-          judge obs
-        | none => "FAIL:unparsable"
+        if implHang impl then "FAIL:hang"
+        else if !endTok.startsWith "end:" then "FAIL:unparsable"
+        else
+          match obsG gts itoks.dropLast with
+          | some obs =>
+            let v := judge obs
+            if v != "ok" then v
+            else if endTok != "end:0" then "FAIL:checker-still-running-after-release" else "ok"
+          | none => "FAIL:unparsable"
       let ups := (evs.filter fun e => match e with | .setUp _ => true | _ => false).length
       let downs := (evs.filter fun e => match e with | .upd _ true => true | _ => false).length
       { model := m, verdict := verdict
@@ -301,10 +330,11 @@ def run (op impl : String) : Ans :=
           | g :: r => let (s', e') := gStep s evs g; go s' e' r
         let (s1, e1) := go init [] (List.replicate (t * p) (GTok.fail th))
         let (s2, e2) := gStep s1 e1 (GTok.health true 1)
-        let m := gStr s1 e1 ++ " " ++ gStr s2 e2
+        let m := gStr s1 e1 ++ " " ++ gStr s2 e2 ++ " " ++ endStr s2 e2
         let verdict :=
+          if implHang impl then "FAIL:hang" else
           match (impl.splitOn " ").filter (· != "") with
-          | [r1, r2] =>
+          | [r1, r2, e] =>
             match parseSt7 r1, parseSt7 r2 with
             | some (a1, _, l1, _), some (a2, _, l2, _) =>
               if l1 > 1 || l2 > 1 then "FAIL:two-checkers"
@@ -312,6 +342,7 @@ def run (op impl : String) : Ans :=
               else if a1 && l1 == 1 then "FAIL:stray-checker"
               else if a2 && l2 != 0 then "FAIL:stray-checker"
               else if (a1 == true) != decide ((t * p : Int) < th) then "FAIL:down-late"
+              else if e != "end:0" then "FAIL:checker-still-running-after-release"
               else "ok"
             | _, _ => "FAIL:unparsable"
           | _ => "FAIL:unparsable"
